@@ -96,8 +96,16 @@ def oracle(run: runner.Run, oc: Outcome) -> None:
             rb, ra = st.records(tr.before), st.records(tr.after)
             if not ra:
                 continue
+            wstep = next((s_ for s_ in lst if any(w_ is tr for w_ in s_.writes)), None)
+            if wstep is None:
+                continue
             for hid, h in hspecs.items():
                 if h['kind'] not in common.CHANGE_KINDS or h.get('subs'):
+                    continue
+                # only handlers that the cause of that very step still selects (a superseding cause purges the others)
+                selected = h['kind'] == wstep.reason or (h['kind'] == 'resume' and (
+                    wstep.reason in ('create', 'update') or (wstep.reason == 'delete' and h.get('opts', {}).get('deleted'))))
+                if not selected:
                     continue
                 key = st.key_name(hid)
                 if key in ra or not common.finished(rb.get(key)):
